@@ -29,7 +29,7 @@ LEVEL = "fault_enumeration"
 TECHNIQUE = ("runtime monitoring: listener / wire / Deferred recorders around the real TCPHiddenServiceEndpoint.listen() on a "
              "fake reactor and a reference Tor, complete enumeration of configuration cells x construction routes x "
              "fault points (one injected failure per execution, every command line of the dialogue as a disconnect point)")
-LEVEL_TEXT = ("Held / violated on the executions observed: every configuration cell (ephemeral/filesystem x auth x version x "
+LEVEL_TEXT = ("Held on the executions observed: every configuration cell (ephemeral/filesystem x auth x version x "
               "key x single-hop x directory kind) built through 7 construction routes, each run fault-free (two event "
               "schedules) and once per fault point (configuration unavailable, bind refused, creating command rejected, all "
               "uploads failed, Tor hanging up instead of / right after answering the k-th command line for every k, loss "
@@ -369,7 +369,6 @@ def _key_for(cell):
 class World(object):
     def __init__(self, case):
         from twisted.internet import defer
-        import txtorcon
         from txtorcon import endpoints as EP
         self.case = case
         self.cell = case.get("cell") or {}
@@ -506,7 +505,6 @@ class World(object):
 
     def build(self):
         """prepare the route and construct the endpoint; returns the endpoint or None (obs.construct_exc set)"""
-        import txtorcon
         from twisted.internet import defer
         from txtorcon import TorConfig, TCPHiddenServiceEndpoint
         from txtorcon.controller import Tor
@@ -524,8 +522,6 @@ class World(object):
             cfg = self.bootstrapped_config()
             if cfg is None:
                 return None
-            if self.fault == ["lose", "before-listen"]:
-                pass    # done after construction, see run()
             if route == "ctor":
                 config_arg = cfg
             elif route == "ctor-deferred":
@@ -885,6 +881,8 @@ def execute(case):
         return w
     finally:
         w.logs.stop()
+        if obs.open_at_end is None:
+            obs.open_at_end = w.open_ports()
         try:
             w.reactor.fireSystemEvent("shutdown")
         except Exception:       # noqa
@@ -1037,6 +1035,8 @@ def judge(w, rec, case):
     rec.count("lines_seen", len(w.tor.lines) - obs.lines0)
     if obs.log_errors:
         rec.count("logged_errors", len(obs.log_errors))
+    if obs.implicit_dir_removed is not None:
+        rec.count("implicit_dirs_removed_by_shutdown_trigger" if obs.implicit_dir_removed else "implicit_dirs_left_after_shutdown")
 
     # ---- every listener: loopback only --------------------------------------------------------
     for c in obs.listen_calls:
